@@ -12,13 +12,15 @@
 //!
 //! Discrepancies are attributed per key by replaying the compaction in three models:
 //!   ideal   nothing changes (the property);
-//!   P1      per-key MERGE of the compacted deltas + the implementation's tombstone rule
-//!           (drop if value.is_tombstone() && stamp.time < now_ms - ttl_ms);
+//!   P1      per-key MERGE of the compacted deltas + the documented tombstone rule (drop if the
+//!           value is an LWW whole-key tombstone — decided by the harness from the value's
+//!           structure, not by the repository's is_tombstone() — && stamp.time < now_ms - ttl_ms);
 //!   Pb      per-key KEEP-LATEST (greatest stamp time, first seen on ties) + the same rule.
 //! after == P1 != ideal  => caused by tombstone dropping alone (KF-C13-02 / KF-C13-03 / accepted GC)
 //! after == Pb != P1     => caused by keep-latest (KF-C13-01)
 //! anything else         => VIOLATION (in the interleaving tier: KF-C13-04 iff the two
-//!                          read-modify-write windows on the manifest overlap).
+//!                          read-modify-write windows on the manifest overlap AND each task
+//!                          reported what its own store calls told it: Ok iff none failed).
 
 #[path = "../../c12/src/model.rs"]
 mod model;
@@ -27,7 +29,7 @@ mod store;
 
 use model::*;
 use proptest::prelude::*;
-use redis_sim::replication::state::{ReplicatedValue, ReplicationDelta};
+use redis_sim::replication::state::{CrdtValue, ReplicatedValue, ReplicationDelta};
 use redis_sim::streaming::{
     CheckpointConfig, CheckpointInfo, CheckpointManager, CompactionConfig, CompactionError,
     CompactionResult, Compactor, FlushResult, ManifestManager, SimulatedClock, StreamingPersistence,
@@ -75,6 +77,11 @@ struct Layout {
     ttl_ms: u64,
     target: u32,
     clock: Clock,
+    /// `ErrorKind` carried by injected failures (index into store::ERROR_KINDS: other, timed
+    /// out, interrupted, connection reset, permission denied …; NotFound is not a failure but
+    /// an answer and is never injected); used by the tiers that inject failing calls
+    #[serde(default)]
+    err_kind: u8,
 }
 
 type Persistence = StreamingPersistence<TraceObjectStore, SimulatedClock>;
@@ -210,9 +217,59 @@ struct Stats {
     tolerated: BTreeSet<&'static str>,
 }
 
+/// A whole-key LWW tombstone (what DEL writes): the only kind of value the tombstone findings
+/// KF-C13-02/-03 are about and the only kind the documented tombstone GC may ever drop. Decided
+/// by the harness from the value's structure — NOT by the repository's `is_tombstone()`, so a
+/// tree in which that predicate accepts more (an emptied hash, an expired value, a zero
+/// counter …) does not widen what the models drop and what the matchers tolerate.
+fn lww_tombstone(v: &ReplicatedValue) -> bool {
+    matches!(&v.crdt, CrdtValue::Lww(l) if l.tombstone)
+}
+
+/// (field, stamp) of every tombstoned field of a hash value.
+fn field_tombstones(v: &ReplicatedValue) -> Vec<(&String, redis_sim::replication::lattice::LamportClock)> {
+    match &v.crdt {
+        CrdtValue::Hash(h) => {
+            let mut t: Vec<_> = h.iter().filter(|(_, r)| r.tombstone).map(|(f, r)| (f, r.timestamp)).collect();
+            t.sort();
+            t
+        }
+        _ => Vec::new(),
+    }
+}
+
+/// A hash with at least one field all of whose fields are tombstoned (every field HDEL-ed).
+fn emptied_hash(v: &ReplicatedValue) -> bool {
+    match &v.crdt {
+        CrdtValue::Hash(h) => !h.is_empty() && h.values().all(|r| r.tombstone),
+        _ => false,
+    }
+}
+
+/// Does `outside` hold a live value of `field` of hash `key` that is older than `stamp` (it
+/// would win again if the field tombstone with that stamp disappeared)?
+fn older_live_field(outside: &State, key: &str, field: &str, stamp: redis_sim::replication::lattice::LamportClock) -> bool {
+    match outside.get(key).map(|o| &o.crdt) {
+        Some(CrdtValue::Hash(h)) => h
+            .get(field)
+            .map(|r| !r.tombstone && r.value.is_some() && r.timestamp < stamp)
+            .unwrap_or(false),
+        _ => false,
+    }
+}
+
 impl<'a> Attribution<'a> {
     fn cutoff(&self) -> u64 {
         self.l.clock.now().saturating_sub(self.l.ttl_ms)
+    }
+
+    /// per-key merge of everything the compaction read
+    fn merged_inputs(&self) -> State {
+        let mut merged: State = State::new();
+        for seg in &self.removed {
+            fold_into(&mut merged, seg);
+        }
+        merged
     }
 
     fn models(&self) -> (State, State) {
@@ -231,7 +288,7 @@ impl<'a> Attribution<'a> {
                 fold_into(&mut merged, std::slice::from_ref(d));
             }
         }
-        let dropped = |v: &ReplicatedValue| v.is_tombstone() && v.timestamp.time < cutoff;
+        let dropped = |v: &ReplicatedValue| lww_tombstone(v) && v.timestamp.time < cutoff;
         let mut p1 = self.outside.clone();
         for (k, v) in merged {
             if !dropped(&v) {
@@ -262,14 +319,36 @@ impl<'a> Attribution<'a> {
         if seen.values().any(|&n| n >= 2) {
             return true;
         }
-        self.removed.iter().flatten().any(|d| {
-            d.value.is_tombstone()
+        if self.removed.iter().flatten().any(|d| {
+            lww_tombstone(&d.value)
                 && self
                     .outside
                     .get(&d.key)
                     .map(|o| o.timestamp.time < d.value.timestamp.time)
                     .unwrap_or(false)
-        })
+        }) {
+            return true;
+        }
+        // a compacted FIELD tombstone whose field has an older live value outside
+        self.field_tombstone_guards_outside_value().0
+    }
+
+    /// (some compacted field tombstone has an older live value of its field outside the
+    ///  compaction, the same for a key whose compacted hash has NO live field left)
+    fn field_tombstone_guards_outside_value(&self) -> (bool, bool) {
+        let mut any = false;
+        let mut emptied = false;
+        for (k, v) in &self.merged_inputs() {
+            for (f, stamp) in field_tombstones(v) {
+                if older_live_field(&self.outside, k, f, stamp) {
+                    any = true;
+                    if emptied_hash(v) {
+                        emptied = true;
+                    }
+                }
+            }
+        }
+        (any, emptied)
     }
 
     /// Compare `after` with the ideal; attribute every differing key. `fallback` = a finding
@@ -422,6 +501,7 @@ fn compaction_pass(
     let store = TraceObjectStore::from_image(image.clone());
     if let Some(f) = fault {
         store.set_faults(&[f]);
+        store.set_error_kind(l.err_kind);
     }
     let arc = Arc::new(store.clone());
     let mut c = compactor(&arc, l);
@@ -574,6 +654,27 @@ fn compaction_pass(
     if first && fault.is_none() && att.nontrivial() {
         ctx.nontrivial(l);
     }
+    if fault.is_none() {
+        // values the compaction must carry over although a client sees "no key": a hash whose
+        // fields are all deleted still guards older field values that lie outside
+        let merged = att.merged_inputs();
+        if merged.values().any(emptied_hash) {
+            ctx.label("compacted_hash_all_fields_deleted");
+        }
+        if merged.values().any(|v| !field_tombstones(v).is_empty()) {
+            ctx.label("compacted_field_tombstone");
+        }
+        let (guards, emptied_guards) = att.field_tombstone_guards_outside_value();
+        if guards {
+            ctx.label("compacted_field_tombstone_older_field_value_outside");
+        }
+        if emptied_guards {
+            ctx.label("compacted_hash_all_fields_deleted_older_field_value_outside");
+        }
+        if merged.values().any(|v| v.expiry_ms.is_some()) {
+            ctx.label("compacted_value_with_expiry");
+        }
+    }
     let mut stats = Stats {
         gc_accepted: 0,
         tolerated: BTreeSet::new(),
@@ -665,6 +766,7 @@ fn read_fault_kinds() -> Vec<Fault> {
 }
 
 fn check_read_faults(l: &Layout, ctx: &mut CaseCtx<'_>) -> Result<(), String> {
+    ctx.label(&format!("injected_error_kind:{}", error_kind(l.err_kind).1));
     let env = setup(l)?;
     let before = recover_image(&env.image).map_err(|e| format!("before: {}", e))?;
     let mut evals = 0u64;
@@ -677,6 +779,7 @@ fn check_read_faults(l: &Layout, ctx: &mut CaseCtx<'_>) -> Result<(), String> {
             for f in read_fault_kinds() {
                 let st = TraceObjectStore::from_image(env.image.clone());
                 st.set_faults(&[(i, f)]);
+                st.set_error_kind(l.err_kind);
                 let rm = redis_sim::streaming::RecoveryManager::new(st.clone(), PREFIX, REPLICA);
                 let r = vcore::runner::catch(|| run_now(rm.recover()))
                     .map_err(|p| format!("recover() under {:?} on call {}: {}", f, i, p))?;
@@ -757,6 +860,10 @@ struct InterOut {
 static N_SERIAL: AtomicU64 = AtomicU64::new(0);
 static N_OVERLAP: AtomicU64 = AtomicU64::new(0);
 static N_OVERLAP_CLEAN: AtomicU64 = AtomicU64::new(0);
+static N_OVERLAP_NO_INTERFERENCE: AtomicU64 = AtomicU64::new(0);
+static N_STALE_PUBLISH: AtomicU64 = AtomicU64::new(0);
+static N_FOREIGN_TEMP: AtomicU64 = AtomicU64::new(0);
+static N_SAME_SEGMENT_KEY: AtomicU64 = AtomicU64::new(0);
 
 const TASK_COMPACT: u8 = 1;
 const TASK_FLUSH: u8 = 2;
@@ -777,6 +884,7 @@ fn run_schedule(
     let mut c = compactor(&arc, l);
     if let Some(f) = flush_fault {
         store.set_task_faults(&[((TASK_FLUSH, 0), f)]);
+        store.set_error_kind(l.err_kind);
     }
     store.set_gated(true);
     let mut word = Vec::new();
@@ -856,6 +964,107 @@ fn windows_overlap(calls: &[CallRecord]) -> bool {
     }
 }
 
+/// Does what each task REPORTED agree with what its own store calls returned?
+///
+/// KF-C13-04 is a race between two tasks each of which does what it would do alone and
+/// reports what the store told it: `flush()` returns Ok iff its manifest reload, its segment
+/// put, its temp put and its rename all returned Ok (every one is `?`-propagated; a failure
+/// puts the batch back into the buffer), `compact()` returns Ok / NothingToCompact iff every
+/// get, put and rename it made returned Ok (deletes are best effort; a NotFound on a get is an
+/// answer it acts on, not a failure). What the finding describes is the damage a LATER manifest
+/// write based on an older snapshot (or the shared temp object / the shared id counter) does to
+/// such truthful tasks. A task that reports success although one of its own calls failed — or
+/// failure although none did — is a different defect, and a discrepancy in such a schedule is
+/// not covered by the finding. Returns the disagreement, if any.
+fn result_vs_own_calls(calls: &[CallRecord], out: &InterOut) -> Option<String> {
+    // the store's truthful NotFound on a get is an answer (manifest: load_or_create; segment:
+    // "missing, clean the manifest up"); every other unsuccessful call is a failure
+    let failed = |c: &&CallRecord| !c.ok && !(c.op == OpKind::Get && !c.injected);
+    let damaged_read = |c: &&CallRecord| c.ok && c.injected && c.op == OpKind::Get;
+    let of = |t: u8| calls.iter().filter(move |c| c.task == t);
+    let flush_failed: Vec<&CallRecord> = of(TASK_FLUSH).filter(failed).collect();
+    match &out.res_b {
+        Ok(_) => {
+            if let Some(c) = flush_failed.first() {
+                return Some(format!("flush() returned Ok although its own store call `{}` failed", c.short()));
+            }
+        }
+        Err(e) => {
+            if flush_failed.is_empty() && !of(TASK_FLUSH).any(|c| damaged_read(&c)) {
+                return Some(format!("flush() returned Err({}) although every store call it made succeeded", e));
+            }
+        }
+    }
+    let compact_failed: Vec<&CallRecord> = of(TASK_COMPACT)
+        .filter(failed)
+        .filter(|c| c.op != OpKind::Delete)
+        .collect();
+    match &out.res_a {
+        Ok(_) | Err(CompactionError::NothingToCompact) => {
+            if let Some(c) = compact_failed.first() {
+                return Some(format!(
+                    "compact() returned {} although its own store call `{}` failed",
+                    if out.res_a.is_ok() { "Ok" } else { "NothingToCompact" },
+                    c.short()
+                ));
+            }
+        }
+        Err(e) => {
+            if compact_failed.is_empty() && !of(TASK_COMPACT).any(|c| damaged_read(&c)) {
+                return Some(format!("compact() returned Err({}) although every store call it made succeeded", e));
+            }
+        }
+    }
+    None
+}
+
+/// The mechanisms by which the unsynchronised manifest read-modify-write of KF-C13-04 lets one
+/// task damage the other's update, read off the trace. A task that only READ (a compactor that
+/// found nothing to compact, a flush whose manifest reload failed) cannot take part in any.
+///   stale_publish     a task's manifest rename succeeds after the other task's succeeded,
+///                     although it had loaded the manifest before that other rename;
+///   foreign_temp      between a task's put of the shared temp object and its rename the other
+///                     task put the temp object too (the rename publishes the other's manifest,
+///                     or finds the temp object gone);
+///   same_segment_key  both tasks put the same segment object (both allocated the id from the
+///                     same manifest snapshot).
+fn interference(calls: &[CallRecord]) -> Vec<&'static str> {
+    let manifest_key = format!("{}/manifest.json", PREFIX);
+    let temp_key = format!("{}/manifest.json.tmp", PREFIX);
+    let of = |t: u8| calls.iter().filter(move |c| c.task == t);
+    let load = |t: u8| of(t).next().map(|c| c.idx);
+    let rename = |t: u8| {
+        of(t)
+            .filter(|c| c.op == OpKind::Rename && c.key2.as_deref() == Some(manifest_key.as_str()))
+            .last()
+            .map(|c| (c.idx, c.ok))
+    };
+    let temp_put = |t: u8| of(t).filter(|c| c.op == OpKind::Put && c.key == temp_key).last().map(|c| c.idx);
+    let mut found = Vec::new();
+    for (x, y) in [(TASK_COMPACT, TASK_FLUSH), (TASK_FLUSH, TASK_COMPACT)] {
+        if let (Some(lx), Some((rx, true)), Some((ry, true))) = (load(x), rename(x), rename(y)) {
+            if ry < rx && lx < ry && !found.contains(&"stale_publish") {
+                found.push("stale_publish");
+            }
+        }
+        if let (Some(px), Some(py), Some((rx, _))) = (temp_put(x), temp_put(y), rename(x)) {
+            if px < py && py < rx && !found.contains(&"foreign_temp") {
+                found.push("foreign_temp");
+            }
+        }
+    }
+    let seg_puts = |t: u8| -> BTreeSet<&str> {
+        of(t)
+            .filter(|c| c.op == OpKind::Put && c.key.contains("/segments/"))
+            .map(|c| c.key.as_str())
+            .collect()
+    };
+    if seg_puts(TASK_COMPACT).intersection(&seg_puts(TASK_FLUSH)).next().is_some() {
+        found.push("same_segment_key");
+    }
+    found
+}
+
 fn check_one_schedule(
     env: &Env,
     before: &Recovered,
@@ -866,7 +1075,29 @@ fn check_one_schedule(
 ) -> Result<bool, String> {
     let calls = out.store.calls();
     let overlap = windows_overlap(&calls);
-    let fallback = if overlap { Some("KF-C13-04") } else { None };
+    // KF-C13-04 covers overlapping schedules in which both tasks reported what their own
+    // store calls told them (see result_vs_own_calls)
+    let untruthful = result_vs_own_calls(&calls, out);
+    if untruthful.is_some() {
+        ctx.label("a_task_reported_other_than_its_own_store_calls");
+    }
+    let mechanisms = interference(&calls);
+    let fallback = if overlap && untruthful.is_none() && !mechanisms.is_empty() {
+        Some("KF-C13-04")
+    } else {
+        None
+    };
+    if overlap && mechanisms.is_empty() {
+        // overlapping windows, but one task only read: nothing to attribute to the race
+        N_OVERLAP_NO_INTERFERENCE.fetch_add(1, Ordering::Relaxed);
+    }
+    for m in &mechanisms {
+        match *m {
+            "stale_publish" => N_STALE_PUBLISH.fetch_add(1, Ordering::Relaxed),
+            "foreign_temp" => N_FOREIGN_TEMP.fetch_add(1, Ordering::Relaxed),
+            _ => N_SAME_SEGMENT_KEY.fetch_add(1, Ordering::Relaxed),
+        };
+    }
     if overlap {
         N_OVERLAP.fetch_add(1, Ordering::Relaxed);
     }
@@ -874,7 +1105,12 @@ fn check_one_schedule(
         format!(
             "    schedule {} (C = one compactor call, F = one flush call){}\n    compact() -> {}\n    flush()   -> {}\n    store calls:\n{}",
             word_text(&out.word),
-            if overlap { " — the manifest read-modify-write windows of the two tasks overlap" } else { " — the two manifest updates are serial" },
+            match (overlap, &untruthful) {
+                (true, Some(why)) => format!(" — the manifest read-modify-write windows of the two tasks overlap, but KF-C13-04 does not cover this schedule: {}", why),
+                (true, None) if mechanisms.is_empty() => " — the manifest read-modify-write windows of the two tasks overlap, but one task only read (no stale publish, no foreign temp object, no shared segment key), so KF-C13-04 does not cover this schedule".to_string(),
+                (true, None) => format!(" — the manifest read-modify-write windows of the two tasks overlap ({})", mechanisms.join(", ")),
+                (false, _) => " — the two manifest updates are serial".to_string(),
+            },
             match &out.res_a {
                 Ok(r) => format!("Ok(removed {:?}, created {:?})", r.segments_removed.iter().map(|s| s.id).collect::<Vec<_>>(), r.segment_created.as_ref().map(|s| s.id)),
                 Err(e) => format!("Err({})", e),
@@ -1006,6 +1242,9 @@ fn check_inter(case: &Inter, ctx: &mut CaseCtx<'_>) -> Result<(), String> {
             if case.flush_fault.is_some() {
                 ctx.label("flush_manifest_read_fault");
             }
+            if case.flush_fault == Some(Fault::Fail) {
+                ctx.label(&format!("injected_error_kind:{}", error_kind(l.err_kind).1));
+            }
         }
         None => {
             for flush_fault in [None, Some(Fault::Fail)] {
@@ -1032,6 +1271,7 @@ fn check_inter(case: &Inter, ctx: &mut CaseCtx<'_>) -> Result<(), String> {
                 }
             }
             ctx.label("all_interleavings");
+            ctx.label(&format!("injected_error_kind:{}", error_kind(l.err_kind).1));
         }
     }
     ctx.add_evaluations(schedules);
@@ -1054,7 +1294,7 @@ fn action() -> impl Strategy<Value = Action> {
         4 => Just(Action::Del),
         3 => (0u8..4, 0u8..6).prop_map(|(field, val)| Action::HSet { field, val }),
         1 => (0u8..4, 0u8..6, 0u8..4, 0u8..6).prop_map(|(f1, v1, f2, v2)| Action::HSet2 { f1, v1, f2, v2 }),
-        1 => (0u8..4).prop_map(|field| Action::HDel { field }),
+        2 => (0u8..4).prop_map(|field| Action::HDel { field }),
         1 => (0u8..4, 0u8..6, 1000u32..5000).prop_map(|(field, val, expiry)| Action::HSetEx { field, val, expiry }),
     ]
 }
@@ -1066,6 +1306,12 @@ fn delta_spec() -> impl Strategy<Value = DeltaSpec> {
         replica,
         time,
     })
+}
+
+/// which `ErrorKind` injected failures carry (half the cases `Other`, as the in-tree
+/// SimulatedObjectStore injects; the rest spread over the other kinds of store::ERROR_KINDS)
+fn err_kind() -> impl Strategy<Value = u8> {
+    prop_oneof![1 => Just(0u8), 1 => 1u8..(ERROR_KINDS.len() as u8)]
 }
 
 fn clock() -> impl Strategy<Value = Clock> {
@@ -1104,12 +1350,14 @@ fn layout(min_segments: usize, max_segments: usize, max_deltas: usize) -> impl S
             ttl_ms,
             target,
             clock,
+            err_kind: 0,
         })
 }
 
 /// More below-target candidates than max_segments_per_compaction, of clearly different sizes
-/// (size order differs from id order), few keys, many deletes: value / tombstone pairs split
-/// across the selection boundary; several passes are needed to compact everything.
+/// (size order differs from id order), few keys, many deletes (whole keys and hash fields):
+/// value / tombstone pairs split across the selection boundary; several passes are needed to
+/// compact everything.
 fn layout_many() -> impl Strategy<Value = Layout> {
     let spec = (
         0u8..2,
@@ -1117,7 +1365,10 @@ fn layout_many() -> impl Strategy<Value = Layout> {
             3 => Just(Action::Del),
             2 => (0u8..6).prop_map(|val| Action::Set { val, pad: 0 }),
             2 => (0u8..6, prop_oneof![Just(80u16), Just(200), Just(350)]).prop_map(|(val, pad)| Action::Set { val, pad }),
-            1 => (0u8..4, 0u8..6).prop_map(|(field, val)| Action::HSet { field, val }),
+            // two fields only, set and deleted from three replicas: hashes whose fields are all
+            // deleted, with the older field value in a segment the pass does not select
+            2 => (0u8..2, 0u8..6).prop_map(|(field, val)| Action::HSet { field, val }),
+            2 => (0u8..2).prop_map(|field| Action::HDel { field }),
         ],
         1u8..4,
         1u64..60,
@@ -1145,6 +1396,7 @@ fn layout_many() -> impl Strategy<Value = Layout> {
             ttl_ms,
             target,
             clock,
+            err_kind: 0,
         })
 }
 
@@ -1173,6 +1425,7 @@ fn case_kf01() -> Layout {
         ttl_ms: 86_400_000,
         target: 1 << 20,
         clock: Clock::Simulated(0),
+        err_kind: 0,
     }
 }
 
@@ -1190,6 +1443,7 @@ fn resurrection_layout(clock: Clock, ttl_ms: u64) -> Layout {
         ttl_ms,
         target: 400,
         clock,
+        err_kind: 0,
     }
 }
 
@@ -1206,6 +1460,7 @@ fn case_kf04() -> Inter {
             ttl_ms: 86_400_000,
             target: 1 << 20,
             clock: Clock::Simulated(0),
+            err_kind: 0,
         },
         batch: vec![spec(2, Action::Set { val: 3, pad: 0 }, 1, 3)],
         // compactor loads the manifest, the flush runs completely, the compactor finishes
@@ -1225,7 +1480,8 @@ fn main() {
          interleave: 2-3 segment layouts + a 1-3 update batch, ALL interleavings of compact()'s and flush()'s store calls (hand-polled, one call per step); interleave_sampled: up to 6 segments with a generated 40-step schedule word. \
          layouts also: 4-8 below-target segments of clearly different sizes on two keys with many deletes and max 2-3 segments per compaction (more candidates than max; size order != id order); compaction passes are repeated until nothing is selectable (<= 6) and recovery compared across every pass. \
          read_faults: every get of recover() and of compact() returns once an error / a byte flipped at 7 relative positions / the object truncated to 5 relative lengths (stored objects intact). \
-         non-trivial = a key occurs in >= 2 compacted segments, or a compacted tombstone has an older value for its key outside the compaction (other segment / checkpoint), \
+         layouts also delete hash fields (HDEL from 3 replicas on 2-4 fields), so compactions carry hashes whose fields are all deleted while an older value of the field lies in a segment the pass did not select. \
+         non-trivial = a key occurs in >= 2 compacted segments, or a compacted tombstone (whole key, or a hash field) has an older value for its key / field outside the compaction (other segment / checkpoint), \
          or (interleaving) some flush call falls between the compactor's manifest load and its manifest rename; distinct by the whole case",
         &args,
     );
@@ -1233,6 +1489,9 @@ fn main() {
     s.assume("updates under one key have one CRDT type and distinct (time, replica) stamps (otherwise merge itself is order-dependent: C07)");
     s.assume("tombstone age: under the production-like clock every update of the layout is younger than the TTL (stamps are logical counters and carry no wall-clock time), so no tombstone may disappear; under the simulated clock the implementation's reading 'stamp = ms' defines age, and a tombstone older than the TTL may disappear iff no client-visible value comes back");
     s.assume("KF-C13-02/-03 are matched only when the compacted set equals what the documented selection rule (below-target segments, oldest id first, at most max_segments_per_compaction) picks from the manifest the compactor loaded (minus a segment it could not read under an injected read fault); a tombstone-drop difference with any other compacted set is a violation");
+    s.assume("the only values a compaction may drop are LWW whole-key tombstones (what DEL writes; ReplicatedValue::is_tombstone() of the unchanged tree). The harness decides this from the value's structure (CrdtValue::Lww with the tombstone flag), never by calling is_tombstone(): a hash whose fields are all deleted, a value with an expiry in the past, an empty set or a zero counter are values a compaction must carry over, and KF-C13-02/-03 do not cover their loss. Only LWW strings and hashes are generated: nothing in the tree creates counter or set CRDT values");
+    s.assume("KF-C13-04 is matched only in schedules where the manifest read-modify-write windows overlap AND both tasks reported what their own store calls returned (flush(): Ok iff its get, both puts and the rename returned Ok; compact(): Ok/NothingToCompact iff every get, put and rename it made returned Ok — deletes are best effort and a truthful NotFound on a get is an answer, not a failure). A discrepancy in a schedule where a task reported success although one of its own calls failed (or failure although none did) is a violation");
+    s.assume("an injected failing call carries one of the ErrorKinds other / timed out / interrupted / connection reset / permission denied / unexpected eof / would block / already exists / invalid data (one kind per case); NotFound is never injected: for this API it is an answer ('the object does not exist') that load_or_create and compact() are documented to act on, and it arises truthfully in the interleaving tier when the other task has moved the shared temp object");
     s.assume("third outcome per call (read_faults check, compaction's puts/renames/deletes): the operation TAKES EFFECT and still reports an error (timeout after commit): put = object fully stored + error; delete = object gone + error; rename = destination written, source still present + error (copy-then-delete as in the in-tree S3 store with the delete failing); if the manifest was swapped although compact() reported an error the compaction is judged like a successful one");
     s.assume("read faults: a get returns Ok with one byte XOR 0xFF (as SimulatedObjectStore corrupts) or with a prefix of the object, once; the stored object is intact. Other damage patterns (single bit flips inside JSON digits of the manifest, which has no checksum) are not injected");
     s.assume("the step scheduler interleaves at store-call granularity: between two store calls a task runs atomically (there is no other await point in compact()/flush())");
@@ -1267,7 +1526,12 @@ fn main() {
     s.run_cases(
         "read_faults",
         s.scale(400, 60_000),
-        || prop_oneof![2 => layout(2, 5, 5).boxed(), 1 => layout_many().boxed()],
+        || {
+            (prop_oneof![2 => layout(2, 5, 5).boxed(), 1 => layout_many().boxed()], err_kind()).prop_map(|(mut l, k)| {
+                l.err_kind = k;
+                l
+            })
+        },
         check_read_faults,
     );
 
@@ -1277,8 +1541,9 @@ fn main() {
         "interleave",
         s.scale(400, 60_000),
         || {
-            (layout(2, 3, 4), proptest::collection::vec(delta_spec(), 1..4)).prop_map(|(mut layout, batch)| {
+            (layout(2, 3, 4), proptest::collection::vec(delta_spec(), 1..4), err_kind()).prop_map(|(mut layout, batch, k)| {
                 layout.checkpoint_prefix = 0;
+                layout.err_kind = k;
                 Inter {
                     layout,
                     batch,
@@ -1304,9 +1569,13 @@ fn main() {
                     1 => Just(Some(Fault::CorruptGet(500))),
                     1 => Just(Some(Fault::TruncateGet(500))),
                 ],
+                err_kind(),
             )
-                .prop_map(|(layout, batch, word, flush_fault)| Inter {
-                    layout,
+                .prop_map(|(mut layout, batch, word, flush_fault, k)| Inter {
+                    layout: {
+                        layout.err_kind = k;
+                        layout
+                    },
                     batch,
                     schedule: Some(word),
                     flush_fault,
@@ -1320,6 +1589,10 @@ fn main() {
             "serial_fully_checked": N_SERIAL.load(Ordering::Relaxed),
             "overlapping": N_OVERLAP.load(Ordering::Relaxed),
             "overlapping_without_any_discrepancy": N_OVERLAP_CLEAN.load(Ordering::Relaxed),
+            "overlapping_but_one_task_only_read_fully_checked": N_OVERLAP_NO_INTERFERENCE.load(Ordering::Relaxed),
+            "with_stale_publish": N_STALE_PUBLISH.load(Ordering::Relaxed),
+            "with_foreign_temp_object": N_FOREIGN_TEMP.load(Ordering::Relaxed),
+            "with_same_segment_key_put_by_both": N_SAME_SEGMENT_KEY.load(Ordering::Relaxed),
         }),
     );
     s.finish();
